@@ -63,19 +63,34 @@ fn alphabet(groups: usize) -> Vec<REvent> {
 struct History {
     template: usize,
     events: Vec<REvent>,
+    /// issuer of each event (identity index, 0 = the creator A, 1 = B on its own device); empty = all by A
+    by: Vec<usize>,
+}
+
+/// second administrator family: after A made B an administrator, events issued by A and by B
+fn two_admin_alphabet() -> Vec<(REvent, usize)> {
+    vec![
+        (REvent::AddAdmin { key: 0, enabled: false }, 1),
+        (REvent::AddUser { group: 0, key: 3, enabled: true }, 1),
+        (REvent::AddRight { group: 0, entity: "ns.P".into(), own: false, all: true }, 1),
+        (REvent::AddGroupWith { entity: "ns.Q".into(), own: true, all: false, key: 3 }, 1),
+        (REvent::AddUser { group: 0, key: 3, enabled: false }, 0),
+        (REvent::AddRight { group: 0, entity: "*".into(), own: true, all: false }, 0),
+        (REvent::AddAdmin { key: 1, enabled: false }, 0),
+    ]
 }
 
 fn histories(tier: Tier) -> Vec<History> {
     let mut res = vec![];
     for (ti, (_, groups)) in templates().iter().enumerate() {
         let a = alphabet(groups.len());
-        res.push(History { template: ti, events: vec![] });
+        res.push(History { template: ti, events: vec![], by: vec![] });
         for e in &a {
-            res.push(History { template: ti, events: vec![e.clone()] });
+            res.push(History { template: ti, events: vec![e.clone()], by: vec![] });
         }
         for e1 in &a {
             for e2 in &a {
-                res.push(History { template: ti, events: vec![e1.clone(), e2.clone()] });
+                res.push(History { template: ti, events: vec![e1.clone(), e2.clone()], by: vec![] });
             }
         }
         let depth3 = tier == Tier::Thorough || ti == 0;
@@ -102,6 +117,7 @@ fn histories(tier: Tier) -> Vec<History> {
                         res.push(History {
                             template: ti,
                             events: vec![e1.clone(), e2.clone(), e3.clone()],
+                            by: vec![],
                         });
                     }
                 }
@@ -126,12 +142,34 @@ fn histories(tier: Tier) -> Vec<History> {
                             res.push(History {
                                 template: ti,
                                 events: vec![e1.clone(), e2.clone(), e3.clone(), e4.clone()],
+                                by: vec![],
                             });
                         }
                     }
                 }
             }
         }
+    }
+    // two administrators (template T0): A makes B an administrator, then every sequence of events issued by either
+    let first = (REvent::AddAdmin { key: 1, enabled: true }, 0usize);
+    let ta = two_admin_alphabet();
+    let depth = if tier == Tier::Thorough { 3 } else { 2 };
+    let mut seqs: Vec<Vec<(REvent, usize)>> = vec![vec![]];
+    for _ in 0..depth {
+        let mut next = vec![];
+        for s in &seqs {
+            for e in &ta {
+                let mut n = s.clone();
+                n.push(e.clone());
+                next.push(n);
+            }
+        }
+        for n in &next {
+            let mut evs = vec![first.clone()];
+            evs.extend(n.iter().cloned());
+            res.push(History { template: 0, events: evs.iter().map(|e| e.0.clone()).collect(), by: evs.iter().map(|e| e.1).collect() });
+        }
+        seqs = next;
     }
     res
 }
@@ -243,7 +281,7 @@ async fn explore(
 ) -> Result<(), String> {
     let tpls = templates();
     let (tname, groups) = &tpls[h.template];
-    let replay = json!({"template": tname, "events": h.events});
+    let replay = if h.by.is_empty() { json!({"template": tname, "events": h.events}) } else { json!({"template": tname, "events": h.events, "by": h.by}) };
     let mut r1 = u.create_room(0, tick(0), groups).await?;
     out.transitions += 1;
     let mut import_err: Vec<(String, String)> = vec![];
@@ -255,12 +293,14 @@ async fn explore(
     }
     for (i, ev) in h.events.iter().enumerate() {
         let date = tick(4 * (i as i64 + 1));
-        let acc = u.apply_event(&mut r1, ev, 0, date).await?;
+        let by = h.by.get(i).copied().unwrap_or(0);
+        let acc = u.apply_event(&mut r1, ev, by, date).await?;
         out.transitions += 1;
-        out.count(if acc { "event-accepted" } else { "event-refused" });
+        out.count(if acc { if by == 0 { "event-accepted" } else { "event-by-second-admin-accepted" } } else { "event-refused" });
         if acc {
-            if let Err(e) = transfer_room_def(&u.peers[1], &u.peers[0], r1.id).await {
-                import_err.push(("import-incremental".into(), e));
+            // the other of the two devices A and B follows incrementally
+            if let Err(e) = transfer_room_def(&u.peers[1 - by], &u.peers[by], r1.id).await {
+                import_err.push((if by == 0 { "import-incremental".into() } else { "import-incremental-from-second-admin".into() }, e));
             }
             out.transitions += 1;
         }
@@ -417,6 +457,7 @@ fn replay(path: &str) -> i32 {
             .map(|r| History {
                 template: templates().iter().position(|t| t.0 == r["template"].as_str().unwrap()).unwrap(),
                 events: serde_json::from_value(r["events"].clone()).unwrap(),
+                by: r.get("by").map(|b| serde_json::from_value(b.clone()).unwrap()).unwrap_or_default(),
             })
             .collect();
         let refs: Vec<&History> = hs.iter().collect();
